@@ -644,6 +644,7 @@ pub fn check_map(obs: &Observation, check_sync: bool) -> V {
         let mut key_pos: BTreeMap<i32, usize> = BTreeMap::new();
         let mut state_at_q: Option<(bool, BTreeMap<i32, i32>, BTreeSet<i32>, bool, bool, u64)> = None;
         let mut seen_clear_after: Option<u64> = None;
+        let mut n_synced_m = 0usize;
         for (fi, f) in r.frames.iter().enumerate() {
             if fi == q {
                 state_at_q = Some((linked, rep.clone(), touched.clone(), cleared, synced_in_session, linked_at));
@@ -710,7 +711,9 @@ pub fn check_map(obs: &Observation, check_sync: bool) -> V {
                     if check_sync {
                         // consistent snapshot: every key holds a value it held at some instant in
                         // [sync request sent, synced received]
-                        let req = r.sent.iter().filter(|(s, st)| *s < f.step && matches!(st, Step::Sync(l) if l == "m")).map(|(s, _)| *s).last();
+                        // the n-th synced answers (at the earliest) the n-th sync request
+                        n_synced_m += 1;
+                        let req = r.sent.iter().filter(|(s, st)| *s < f.step && matches!(st, Step::Sync(l) if l == "m")).map(|(s, _)| *s).nth(n_synced_m - 1);
                         if let Some(req_step) = req {
                             // states in the window: last state at or before req_step, and all with step in (req_step, f.step]
                             let mut window: Vec<&BTreeMap<i32, i32>> = vec![];
@@ -728,8 +731,14 @@ pub fn check_map(obs: &Observation, check_sync: bool) -> V {
                             for k in keys {
                                 let have = rep.get(&k);
                                 if !window.iter().any(|m| m.get(&k) == have) {
+                                    let first_sync = r.sent.iter().filter(|(_, st)| matches!(st, Step::Sync(x) if x == "m")).map(|(s, _)| *s).next();
+                                    let linked_first = first_sync.map(|fs| r.sent.iter().any(|(s, st)| *s < fs && matches!(st, Step::Link(x) if x == "m"))).unwrap_or(true);
                                     add(
-                                        format!("as: map sync snapshot inconsistent ({})", if have.is_none() { "key missing" } else { "value never held in the sync window" }),
+                                        format!(
+                                            "as: map sync snapshot inconsistent ({}{})",
+                                            if have.is_none() { "key missing" } else { "value never held in the sync window" },
+                                            if linked_first { "" } else { ", remote synced without linking first" }
+                                        ),
                                         format!(
                                             "remote {}: at synced (step {}, request at {}) key {} is {:?} but the lane held {:?} in the window",
                                             ri,
@@ -757,8 +766,15 @@ pub fn check_map(obs: &Observation, check_sync: bool) -> V {
             if l && !unlink_sent {
                 if synced_q {
                     if rep_q != final_q {
+                        // canonical classification: did this remote link explicitly before syncing?
+                        let first_sync = r.sent.iter().filter(|(_, st)| matches!(st, Step::Sync(x) if x == "m")).map(|(s, _)| *s).next();
+                        let linked_first = first_sync.map(|fs| r.sent.iter().any(|(s, st)| *s < fs && matches!(st, Step::Link(x) if x == "m"))).unwrap_or(true);
                         add(
-                            "as: synced map replica differs from the lane at quiescence".into(),
+                            if linked_first {
+                                "as: synced map replica differs from the lane at quiescence".to_string()
+                            } else {
+                                "as: map replica of a remote that synced without linking first differs from the lane at quiescence".to_string()
+                            },
                             format!("remote {}: replica {:?} lane {:?}", ri, rep_q, final_q),
                         );
                     }
@@ -779,6 +795,215 @@ pub fn check_map(obs: &Observation, check_sync: bool) -> V {
                 }
             }
         }
+    }
+    out
+}
+
+// ------------------------------------------------------------------------------------------
+// C03: value lane sync - the value delivered with synced is one the lane held in the window
+// ------------------------------------------------------------------------------------------
+
+pub fn check_value_sync(obs: &Observation) -> V {
+    let mut out: V = vec![];
+    let mut add = |sig: String, expl: String| {
+        if !out.iter().any(|(s, _)| *s == sig) {
+            out.push((sig, expl));
+        }
+    };
+    for (ri, r) in obs.remotes.iter().enumerate() {
+        if r.decode_error.is_some() {
+            continue;
+        }
+        for lane in VALUE_LANES {
+            let hist = value_history(obs, lane, None);
+            let mut last_event: Option<(u64, i32)> = None;
+            let mut linked = false;
+            let mut n_synced = 0usize;
+            for f in r.frames.iter().filter(|f| f.lane == lane) {
+                match f.kind {
+                    FrameKind::Linked => {
+                        if !linked {
+                            linked = true;
+                            last_event = None;
+                        }
+                    }
+                    FrameKind::Unlinked => linked = false,
+                    FrameKind::Event => {
+                        if let Ok(x) = body_str(f).parse::<i32>() {
+                            last_event = Some((f.step, x));
+                        }
+                    }
+                    FrameKind::Synced => {
+                        n_synced += 1;
+                        let req = r.sent.iter().filter(|(s, st)| *s < f.step && matches!(st, Step::Sync(l) if l == lane)).map(|(s, _)| *s).nth(n_synced - 1);
+                        let Some(req_step) = req else { continue };
+                        match last_event {
+                            None => add(
+                                "as: value lane synced without any value delivered in the session".into(),
+                                format!("remote {} lane {}: synced at step {} but no event since linked", ri, lane, f.step),
+                            ),
+                            Some((_, x)) => {
+                                let mut window: Vec<i32> = vec![];
+                                let mut before: Option<i32> = None;
+                                for (s, y) in &hist {
+                                    if *s <= req_step {
+                                        before = Some(*y);
+                                    } else if *s <= f.step {
+                                        window.push(*y);
+                                    }
+                                }
+                                if let Some(b) = before {
+                                    window.insert(0, b);
+                                }
+                                if !window.contains(&x) {
+                                    add(
+                                        "as: value at synced was not held by the lane between the sync request and synced".into(),
+                                        format!("remote {} lane {}: value {} at synced (request step {}, synced step {}), lane held {:?} in that window", ri, lane, x, req_step, f.step, window),
+                                    );
+                                }
+                            }
+                        }
+                    }
+                }
+            }
+        }
+    }
+    out
+}
+
+// ------------------------------------------------------------------------------------------
+// C02: take / drop remove exactly the entries designated by the documented key order
+// ------------------------------------------------------------------------------------------
+
+fn split_top(s: &str) -> Vec<String> {
+    let mut out = vec![];
+    let mut depth = 0i32;
+    let mut cur = String::new();
+    for c in s.chars() {
+        match c {
+            '{' | '(' => {
+                depth += 1;
+                cur.push(c);
+            }
+            '}' | ')' => {
+                depth -= 1;
+                cur.push(c);
+            }
+            ',' if depth == 0 => {
+                out.push(cur.trim().to_string());
+                cur = String::new();
+            }
+            _ => cur.push(c),
+        }
+    }
+    if !cur.trim().is_empty() {
+        out.push(cur.trim().to_string());
+    }
+    out
+}
+
+fn num_after(s: &str, prefix: &str) -> Option<i32> {
+    let rest = s.split(prefix).nth(1)?;
+    let digits: String = rest.chars().take_while(|c| c.is_ascii_digit() || *c == '-').collect();
+    digits.parse().ok()
+}
+
+/// Reference interpreter for the map-affecting steps of a single writer's script.
+pub fn reference_map(steps: &[Step]) -> Option<BTreeMap<i32, i32>> {
+    let mut m: BTreeMap<i32, i32> = BTreeMap::new();
+    for st in steps {
+        match st {
+            Step::Cmd(l, body) if l == "m" => {
+                let b = body.trim();
+                if b == "@clear" {
+                    m.clear();
+                } else if b.starts_with("@update(") {
+                    match parse_map_event(b) {
+                        Some(MapEv::Update(k, v)) => {
+                            m.insert(k, v);
+                        }
+                        _ => return None,
+                    }
+                } else if b.starts_with("@remove(") {
+                    match parse_map_event(b) {
+                        Some(MapEv::Remove(k)) => {
+                            m.remove(&k);
+                        }
+                        _ => return None,
+                    }
+                } else if b.starts_with("@take(") {
+                    let n = num_after(b, "@take(")? as usize;
+                    let keep: Vec<i32> = m.keys().cloned().take(n).collect();
+                    m.retain(|k, _| keep.contains(k));
+                } else if b.starts_with("@drop(") {
+                    let n = num_after(b, "@drop(")? as usize;
+                    let dropk: Vec<i32> = m.keys().cloned().take(n).collect();
+                    m.retain(|k, _| !dropk.contains(k));
+                } else {
+                    return None;
+                }
+            }
+            Step::Cmd(l, body) if l == "c" => {
+                let inner = body.trim().strip_prefix("@act{ops:{")?.strip_suffix("}}")?;
+                for op in split_top(inner) {
+                    if op.starts_with("@upd{") {
+                        let k = num_after(&op, "k:")?;
+                        let v = num_after(&op, "v:")?;
+                        m.insert(k, v);
+                    } else if op.starts_with("@rem(") {
+                        let k = num_after(&op, "@rem(")?;
+                        m.remove(&k);
+                    } else if op == "@clr" {
+                        m.clear();
+                    }
+                }
+            }
+            _ => {}
+        }
+    }
+    Some(m)
+}
+
+pub fn check_take_drop(obs: &Observation) -> V {
+    let mut out: V = vec![];
+    if obs.fault_before_quiescence || obs.truth_at_quiescence.is_none() {
+        return out;
+    }
+    // only scripts where a single remote modifies the map (processing order = its send order)
+    let writers: Vec<usize> = obs
+        .remotes
+        .iter()
+        .enumerate()
+        .filter(|(_, r)| r.queue.iter().any(|s| matches!(s, Step::Cmd(l, b) if l == "m" || (l == "c" && (b.contains("@upd") || b.contains("@rem(") || b.contains("@clr"))))))
+        .map(|(i, _)| i)
+        .collect();
+    if writers.len() != 1 {
+        return out;
+    }
+    let r = &obs.remotes[writers[0]];
+    if r.pos < r.queue.len() || r.dropped_at.is_some() {
+        return out;
+    }
+    // commands to *different* lanes may legitimately be handled in a different order than they
+    // were sent; the reference is only defined when every map-affecting command uses one lane
+    let via_m = r.queue.iter().any(|s| matches!(s, Step::Cmd(l, _) if l == "m"));
+    let via_c = r.queue.iter().any(|s| matches!(s, Step::Cmd(l, b) if l == "c" && (b.contains("@upd") || b.contains("@rem(") || b.contains("@clr"))));
+    if via_m && via_c {
+        return out;
+    }
+    let Some(expected) = reference_map(&r.queue) else { return out };
+    let hist_q = map_history(obs, "m", obs.truth_at_quiescence);
+    let fin = hist_q.last().map(|h| h.1.clone()).unwrap_or_default();
+    if fin != expected {
+        let has_td = r.queue.iter().any(|s| matches!(s, Step::Cmd(l, b) if l == "m" && (b.starts_with("@take") || b.starts_with("@drop"))));
+        out.push((
+            if has_td {
+                "as: map lane content differs from the reference after take/drop (documented key order)".to_string()
+            } else {
+                "as: map lane content differs from the reference interpretation of the commands".to_string()
+            },
+            format!("script {:?}: lane holds {:?}, reference {:?}", r.queue, fin, expected),
+        ));
     }
     out
 }
